@@ -4,14 +4,13 @@
 
    [spec]   = the first-write-wins byte map with consumed prefix, highest received offset and final size
    [rstate] = the slot-list model that follows the Rust (slots, cursors); [rstep] one operation of it.
-   The slot-level refinement is proved for everything the cursors decide (acceptance, rejection,
-   consumed / final size, state unchanged on rejection) -- theorems without suffix -- while the equality of
-   the popped content and of len / total_received_len with the specification is established by
-   differential execution of the extracted model against the implementation and by the extracted
-   specification judging the implementation directly ([..._partial]). *)
+   The slot model refines the specification on every operation sequence (C01_reasm_refines) and the
+   specification's judgement accepts every run of the model on every case (C01_reasm_judge_model); the two
+   [..._partial] theorems are the weaker phase-1 statements, kept for reference. *)
 From SQ Require Import lib.Base gen.Gen_C01.
-From SQ Require model.Reassembler proofs.ReassemblerProofs proofs.ReassemblerSlots.
-Import Reassembler ReassemblerProofs ReassemblerSlots.
+From SQ Require model.Reassembler proofs.ReassemblerProofs proofs.ReassemblerSlots proofs.ReassemblerInv
+  proofs.ReassemblerRefine proofs.ReassemblerWrite proofs.ReassemblerFull.
+Import Reassembler ReassemblerProofs ReassemblerSlots ReassemblerInv ReassemblerRefine ReassemblerWrite ReassemblerFull.
 Local Open Scope N_scope.
 
 (* the constants the source declares: 4 KiB minimum allocation, ladder for pow in 2..=4, u64::MAX = unknown *)
@@ -59,8 +58,8 @@ Proof. exact reject_unchanged. Qed.
    after every operation: consumed offset, highest received offset and final size of the slot model equal the
    specification's (driven with the chunk sizes the model chose), the model accepts exactly the writes and skips
    the specification accepts, and a rejected operation leaves the model state unchanged.
-   Missing for the full statement of DESIGN 5.1: RInv of the slot list and equality of the popped bytes,
-   len and total_received_len with the specification (checked by execution, not proved). *)
+   (Kept from phase 1; superseded by C01_reasm_refines below, which adds RInv, the byte map, the counters and the
+   popped content.) *)
 Theorem C01_reasm_refines_partial : forall ops, Forall wf_op ops -> lockstep rinit spec_init ops.
 Proof. exact (fun ops H => lockstep_all ops rinit spec_init H CR_init). Qed.
 
@@ -116,10 +115,52 @@ Theorem C01_try_write_content : forall s r s1 r1 fo fl, slot_ok s -> reader_ok r
   forall p, s_end s <= p -> r_off r <= p -> p < r_off r1 -> p < s_endalloc s ->
   slots_get (s1 :: match fo with Some f => [f] | None => [] end) p = rd_get r p /\ rd_get r p <> None.
 Proof. exact try_write_content. Qed.
-(* RInv over the loops of the write path (write_reader_at / write_reader_with_alloc / unsplit_range) is not proved: partial *)
+(* read side only (kept from phase 1; C01_rinv_preserved below covers every operation) *)
 Theorem C01_rinv_preserved_partial : forall st o, RInv st -> (match o with Write _ => False | _ => True end) ->
   RInv (fst (rstep st o)).
 Proof. exact read_side_inv. Qed.
+
+(* ==== the full slot-level refinement (phase 2) ====
+   [Inv]  = RInv strengthened by the block structure that makes it inductive over the write path: every slot lies in
+            one allocation block, a slot starts at its block start or right at the end of its predecessor (or at
+            start_offset), a slot not followed by an adjacent one ends at its block end or at/after the final offset;
+            plus start_offset <= max_recv_offset <= final_offset <= 2^62-1 bounds and "no fuelled loop ran out of fuel".
+   [Abs st s] = Inv st, equal cursors, and the byte map of the slots equals the first-write-wins map of s at every
+            position at or above the consumed offset. *)
+
+(* Reassembler::write_reader_impl (allocate_slot, try_write_reader split/append, the two loops, unsplit_range):
+   keeps the invariant, never runs out of fuel, and stores exactly the reader's bytes at the positions nobody wrote *)
+Theorem C01_write_path_ok : WriteOK.
+Proof. exact write_ok. Qed.
+
+(* reasm_refines, full: along every operation sequence from the initial state, after every operation: RInv/Inv holds,
+   cursors and byte map equal the specification's, len / consumed_len / total_received_len / final_size / flags equal
+   the specification's, the operation is accepted exactly when the specification accepts it, and a pop returns
+   exactly the bytes of the first-write-wins map at [consumed, consumed+n), n <= watermark, n = 0 only if nothing is
+   available or the watermark is 0 *)
+Theorem C01_reasm_refines : forall ops, Forall wf_op ops -> refines rinit spec_init ops.
+Proof. exact (fun ops H => refines_all ops rinit spec_init H Abs_init). Qed.
+
+(* RInv is preserved by every operation, writes included *)
+Theorem C01_rinv_preserved : forall st s o, Abs st s -> wf_op o -> Inv (fst (rstep st o)) /\ RInv (fst (rstep st o)).
+Proof. exact inv_preserved. Qed.
+
+(* the judgement of the specification accepts the run of the slot model on EVERY case (no validity premise: the
+   decoder only produces well-formed operations) -- so the judge stands for the model on all inputs *)
+Theorem C01_reasm_judge_model : forall case, judge case (run case) = true.
+Proof. exact judge_model. Qed.
+
+(* maximality of the judge's [reach]: it stops only at a position nobody has written, so total_received_len and len
+   demanded by the judge are exactly the contiguous received prefix; and [cks_range] succeeds on every received stretch *)
+Theorem C01_judge_reach_max : forall fuel segs p, segs_ok segs -> p <= varint_max -> (cnt segs p < fuel)%nat ->
+  sget segs (reach fuel segs p) = None.
+Proof. exact reach_max. Qed.
+Theorem C01_judge_fuel_enough : forall segs p, (cnt segs p < 2 * length segs + 1)%nat.
+Proof. intros segs p. pose proof (cnt_le segs p). lia. Qed.
+Theorem C01_judge_content_complete : forall fuel segs p e h, Forall seg_wf segs ->
+  (forall q, p <= q -> q < e -> sget segs q <> None) -> (cnt segs p <= fuel)%nat ->
+  exists h', cks_range fuel segs p e h = Some h'.
+Proof. exact cks_range_complete. Qed.
 
 (* non-vacuity: concrete runs of the slot model (gap filling across the 4096 boundary, skip, conflicting FINs,
    a reader whose final offset lies beyond its data) are accepted by the judge; altered outputs are not *)
@@ -148,5 +189,12 @@ Print Assumptions C01_rskip_correct.
 Print Assumptions C01_try_write_shape.
 Print Assumptions C01_try_write_content.
 Print Assumptions C01_rinv_preserved_partial.
+Print Assumptions C01_write_path_ok.
+Print Assumptions C01_reasm_refines.
+Print Assumptions C01_rinv_preserved.
+Print Assumptions C01_reasm_judge_model.
+Print Assumptions C01_judge_reach_max.
+Print Assumptions C01_judge_fuel_enough.
+Print Assumptions C01_judge_content_complete.
 Print Assumptions C01_examples_judged.
 Print Assumptions C01_examples_rejected.
